@@ -25,7 +25,13 @@ pub fn convert(
     let mut rules: Vec<Box<dyn VarResolve>> = vec![];
     rules.push(Box::new(ExistingVar::default()));
     rules.push(Box::new(ExistingConst::new_local()));
-    if extra.element != ExprContext::Default {
+    if extra.element == ExprContext::Argument {
+        // inside the function its name is the result variable (passed by reference);
+        // anywhere else a function name in an argument list is a call without arguments
+        rules.push(Box::new(AssignToFunction::inside_the_function_only()));
+        rules.push(Box::new(VarAsBuiltInFunctionCall::default()));
+        rules.push(Box::new(VarAsUserDefinedFunctionCall::default()));
+    } else if extra.element != ExprContext::Default {
         rules.push(Box::new(AssignToFunction::default()));
     } else {
         rules.push(Box::new(VarAsBuiltInFunctionCall::default()));
@@ -189,11 +195,24 @@ fn const_variant_to_expression(value: Variant) -> Expression {
 #[derive(Default)]
 pub struct AssignToFunction {
     function_qualifier: Option<TypeQualifier>,
+    inside_the_function_only: bool,
+}
+
+impl AssignToFunction {
+    pub fn inside_the_function_only() -> Self {
+        Self {
+            function_qualifier: None,
+            inside_the_function_only: true,
+        }
+    }
 }
 
 impl VarResolve for AssignToFunction {
     fn can_handle(&mut self, ctx: &LinterContext, name: &Name) -> bool {
         let bare_name = name.as_bare_name();
+        if self.inside_the_function_only && !ctx.names.is_in_function(bare_name) {
+            return false;
+        }
         match ctx.function_qualifier(bare_name) {
             Some(function_qualifier) => {
                 self.function_qualifier = Some(function_qualifier);
